@@ -2,7 +2,7 @@
 """Confirm a seeded change and run checks against it.
 usage: tools/try_seed.py <seed-dir> <name> <CHECK-ID> [more CHECK-IDs] [--tier quick|thorough]
  1. scratch worktree of /repo HEAD under /tmp: baseline demo must exit 0; apply patch; pytest must show 566 passed; demo must exit 1
- 2. apply the patch to /repo, run bin/check for each id, record VIOLATION lines, undo (git checkout -- .)
+ 2. run bin/check for each id against that worktree (VERIF_REPO / VERIF_WORK / VERIF_EVID point into /tmp), record VIOLATION lines; /repo is never touched
  3. on success store /verif/seeded/<name>/{patch.diff, demo.py, meta.json}"""
 import json, os, shutil, subprocess, sys, tempfile, time
 
@@ -30,30 +30,27 @@ def main():
         res.update({"baseline_demo_exit": base.returncode, "apply": ap.returncode, "tests": tests.stdout.strip(), "mutant_demo_exit": mut.returncode,
                     "mutant_demo_tail": mut.stdout.strip().splitlines()[-3:]})
         res["confirmed"] = base.returncode == 0 and ap.returncode == 0 and "566 passed" in tests.stdout and "failed" not in tests.stdout and mut.returncode != 0
+        runs = {}
+        if res["confirmed"]:
+            # the checks run against the scratch worktree (patch applied there): /repo, /verif/evidence and /verif/.work are never touched
+            area = wt + "_area"
+            envs = "VERIF_REPO=%s VERIF_WORK=%s/work VERIF_EVID=%s/evidence VERIF_TIER=%s" % (wt, area, area, tier)
+            for c in checks:
+                t0 = time.time()
+                r = sh("cd /verif && %s bin/check %s" % (envs, c), timeout=7200)
+                vio = [l[:400] for l in r.stdout.splitlines() if l.startswith("VIOLATION")]
+                runs[c] = {"exit": r.returncode, "violations": len(vio), "first": vio[:3], "wall_s": round(time.time() - t0, 1),
+                           "tail": r.stdout.strip().splitlines()[-2:] if r.returncode not in (0, 1) else []}
+                print(c, "exit", r.returncode, "violations", len(vio), (vio[0][:250] if vio else ""), flush=True)
+            shutil.rmtree(area, ignore_errors=True)
     finally:
         sh("git -C /repo worktree remove --force %s" % wt)
+        sh("git -C /repo worktree prune")
         shutil.rmtree(wt, ignore_errors=True)
     print(json.dumps(res, indent=1))
     if not res["confirmed"]:
         print("SEED NOT CONFIRMED")
         return 2
-    assert sh("git -C /repo status --porcelain").stdout.strip() == "", "/repo not clean"
-    runs = {}
-    try:
-        assert sh("git -C /repo apply %s" % patch).returncode == 0
-        for c in checks:
-            t0 = time.time()
-            r = sh("cd /verif && VERIF_TIER=%s bin/check %s" % (tier, c), timeout=7200)
-            vio = [l[:400] for l in r.stdout.splitlines() if l.startswith("VIOLATION")]
-            runs[c] = {"exit": r.returncode, "violations": len(vio), "first": vio[:3], "wall_s": round(time.time() - t0, 1),
-                       "tail": r.stdout.strip().splitlines()[-2:] if r.returncode not in (0, 1) else []}
-            print(c, "exit", r.returncode, "violations", len(vio), (vio[0][:250] if vio else ""))
-    finally:
-        sh("git -C /repo checkout -- .")
-        assert sh("git -C /repo status --porcelain").stdout.strip() == ""
-    # restore evidence/replays clobbered by the mutant runs
-    for c in checks:
-        shutil.rmtree("/verif/evidence/replays/%s" % c, ignore_errors=True)
     out = os.path.join("/verif/seeded", name)
     os.makedirs(out, exist_ok=True)
     shutil.copy(patch, os.path.join(out, "patch.diff"))
